@@ -237,7 +237,7 @@ inductive RunOutcome where
   | builderRejected (p : Panic)
   | resolveFailed (e : ResolveError)
   | called (o : Outcome)
-  deriving Repr
+  deriving Repr, DecidableEq
 
 def run (cs : List (Creator T BT)) (args : List V) (blk : Option B) : RunOutcome :=
   match buildAll cs with
@@ -318,22 +318,19 @@ def inRange (lo hi : Option Int) (n : Int) : Bool :=
 mutual
 /-- `px.IsInstance` on the alphabet: IntegerType.IsInstance (bounds), scStringType.IsInstance (character count),
     EnumType.IsInstance (case-sensitive member; no values = any string), ArrayType (every element), VariantType (some
-    member), OptionalType (undef or the contained type), Any, Undef, Boolean, unresolved TypeReference (nothing) -/
+    member), OptionalType (undef or the contained type), Any, Undef, Boolean, unresolved TypeReference (nothing).
+    Structural recursion on the type (so that closed instances reduce by `decide`). -/
 def inst : Ty → Val → Bool
-  | .int lo hi, .int n => inRange lo hi n
-  | .str lo hi, .str s => decide (lo ≤ s.length) && leMax s.length hi
-  | .enum vs, .str s => vs.isEmpty || vs.contains s
-  | .arr e, .arr vs => instAll e vs
+  | .int lo hi, v => match v with | .int n => inRange lo hi n | _ => false
+  | .str lo hi, v => match v with | .str s => decide (lo ≤ s.length) && leMax s.length hi | _ => false
+  | .enum vs, v => match v with | .str s => vs.isEmpty || vs.contains s | _ => false
+  | .arr e, v => match v with | .arr vs => vs.all (fun x => inst e x) | _ => false
   | .var ts, v => instAny ts v
-  | .opt _, .undef => true
-  | .opt t, v => inst t v
+  | .opt t, v => match v with | .undef => true | _ => inst t v
   | .any, _ => true
-  | .undef, .undef => true
-  | .bool, .bool _ => true
-  | _, _ => false
-def instAll : Ty → List Val → Bool
-  | _, [] => true
-  | e, v :: vs => inst e v && instAll e vs
+  | .undef, v => match v with | .undef => true | _ => false
+  | .bool, v => match v with | .bool _ => true | _ => false
+  | .never, _ => false
 def instAny : List Ty → Val → Bool
   | [], _ => false
   | t :: ts, v => inst t v || instAny ts v
